@@ -974,7 +974,7 @@ var FieldWriteSet = `
 				if func(tgt, src {{$ctx.TypeName}}) bool {
 					{{- template "FieldDeepEqual" $ctx}}
 					return true
-				}({{.Target}}[i], {{.Target}}[j]) {
+				}({{if and .ValCtx.Type.Category.IsStructLike Features.ValueTypeForSIC}}&{{.Target}}[i], &{{.Target}}[j]{{else}}{{.Target}}[i], {{.Target}}[j]{{end}}) {
 		{{- else}}
 				{{- UseStdLibrary "reflect"}}
 				if reflect.DeepEqual({{.Target}}[i], {{.Target}}[j]) {
